@@ -98,6 +98,9 @@ func MinimizeFile(p runner.Prop, path string) int {
 	// the replay is either a History or an object wrapping one under "h"
 	var wrapper map[string]json.RawMessage
 	wrapped := false
+	if err := json.Unmarshal(doc["replay"], &wrapper); err == nil && wrapper["h"] == nil && wrapper["steps"] != nil && wrapper["family"] != nil {
+		return minimizeRawSteps(p, path, doc, wrapper)
+	}
 	if err := json.Unmarshal(doc["replay"], &wrapper); err == nil && wrapper["h"] != nil {
 		wrapped = true
 		if err := json.Unmarshal(wrapper["h"], &h); err != nil {
@@ -160,6 +163,124 @@ func MinimizeFile(p runner.Prop, path string) int {
 		_ = eb
 	}
 	res := wk.Replay(raw)
+	for _, v := range res.Viol {
+		fmt.Printf("  => %s: %s\n", v.Kind, v.Detail)
+	}
+	return 0
+}
+
+
+// minimizeRawSteps is delta debugging over replays that carry their own list
+// of steps ({"family":..,"steps":[...]}: C09, C14, C15 in-process families).
+func minimizeRawSteps(p runner.Prop, path string, doc, wrapper map[string]json.RawMessage) int {
+	var steps []json.RawMessage
+	if err := json.Unmarshal(wrapper["steps"], &steps); err != nil {
+		fmt.Fprintln(os.Stderr, err)
+		return 2
+	}
+	var kind string
+	_ = json.Unmarshal(doc["kind"], &kind)
+	var seed int64
+	_ = json.Unmarshal(doc["seed"], &seed)
+	wk, err := p.NewWorker("quick", seed)
+	if err != nil {
+		fmt.Fprintln(os.Stderr, err)
+		return 2
+	}
+	defer wk.Close()
+	encode := func(st []json.RawMessage) json.RawMessage {
+		w := map[string]json.RawMessage{}
+		for k, v := range wrapper {
+			w[k] = v
+		}
+		raw, _ := json.Marshal(st)
+		w["steps"] = raw
+		out, _ := json.Marshal(w)
+		return out
+	}
+	runs := 0
+	fails := func(st []json.RawMessage) bool {
+		runs++
+		res := wk.Replay(encode(st))
+		for _, v := range res.Viol {
+			if v.Kind == kind {
+				return true
+			}
+		}
+		return false
+	}
+	if !fails(steps) {
+		fmt.Println("original does not reproduce")
+		return 1
+	}
+	cur := steps
+	n := 2
+	for len(cur) >= 2 {
+		chunk := (len(cur) + n - 1) / n
+		reduced := false
+		for start := 0; start < len(cur); start += chunk {
+			end := start + chunk
+			if end > len(cur) {
+				end = len(cur)
+			}
+			cand := append(append([]json.RawMessage{}, cur[:start]...), cur[end:]...)
+			if len(cand) > 0 && fails(cand) {
+				cur = cand
+				if n > 2 {
+					n--
+				}
+				reduced = true
+				break
+			}
+		}
+		if !reduced {
+			if chunk == 1 {
+				break
+			}
+			n *= 2
+			if n > len(cur) {
+				n = len(cur)
+			}
+		}
+	}
+	// shrink multi-edit steps (field "e" holding an array)
+	for i := range cur {
+		for {
+			var st map[string]json.RawMessage
+			if json.Unmarshal(cur[i], &st) != nil {
+				break
+			}
+			var es []json.RawMessage
+			if json.Unmarshal(st["e"], &es) != nil || len(es) < 2 {
+				break
+			}
+			shr := false
+			for k := range es {
+				es2 := append(append([]json.RawMessage{}, es[:k]...), es[k+1:]...)
+				raw, _ := json.Marshal(es2)
+				st["e"] = raw
+				cand := append([]json.RawMessage{}, cur...)
+				cand[i], _ = json.Marshal(st)
+				if fails(cand) {
+					cur = cand
+					shr = true
+					break
+				}
+			}
+			if !shr {
+				break
+			}
+		}
+	}
+	doc["replay"] = encode(cur)
+	out, _ := json.MarshalIndent(doc, "", " ")
+	outPath := path + ".min.json"
+	_ = os.WriteFile(outPath, out, 0o644)
+	fmt.Printf("minimised %d -> %d steps in %d runs: %s\n", len(steps), len(cur), runs, outPath)
+	for i, st := range cur {
+		fmt.Printf("  %2d %s\n", i, string(st))
+	}
+	res := wk.Replay(encode(cur))
 	for _, v := range res.Viol {
 		fmt.Printf("  => %s: %s\n", v.Kind, v.Detail)
 	}
